@@ -15,6 +15,14 @@
 (*        known finding F05), auxiliary text = the composition, readable   *)
 (*   C06  flag rules; terminating events leave the context idle            *)
 (*   the driver stayed inside the contract (commit index, update idle)     *)
+(* Whole-system sessions (driver "shadow") carry more per event:           *)
+(*   Shadow           the returned suggestion equals the one a brand-new   *)
+(*                    context over the same configuration and user files   *)
+(*                    gives for the surviving text - owed per C05 / C06 /  *)
+(*                    C09 / C11 as the state of THIS specification says    *)
+(*   FirstIsComposed  fixed list: first candidate = composed text          *)
+(*   C16 facts        no emoji / raw text / Bengali code point in ANSI     *)
+(*   filechg          only a possibly-learning commit changes the store    *)
 (* $FOCUS selects whose conjuncts are enforced.                            *)
 (***************************************************************************)
 EXTENDS FixedCompose, Layout
